@@ -102,10 +102,46 @@ func c09(c *core.Ctx) {
 						}
 					}
 					n := 0
-					for _, caller := range p.LibFuncs("httpgrpc") {
-						for _, cc := range core.CallsIn(caller, func(call *ssa.Call, ci core.CallInfo) bool { return ci.Static == w.fn }) {
+					// the encoder's callers; a caller that merely forwards its own context parameter (a helper that
+					// assembles the request headers) is replaced by its callers
+					type csite struct {
+						caller *ssa.Function
+						cc     *ssa.Call
+						arg    ssa.Value
+					}
+					var sitesOf func(target *ssa.Function, pidx int, depth int) []csite
+					sitesOf = func(target *ssa.Function, pidx int, depth int) []csite {
+						var out []csite
+						for _, caller := range p.LibFuncs("httpgrpc") {
+							for _, cc := range core.CallsIn(caller, func(call *ssa.Call, ci core.CallInfo) bool { return ci.Static == target }) {
+								if pidx >= len(cc.Call.Args) {
+									continue
+								}
+								arg := cc.Call.Args[pidx]
+								if fp, isPar := arg.(*ssa.Parameter); isPar && depth < 2 && caller.Parent() == nil && caller.Object() != nil && !caller.Object().Exported() && len(requestBoundCtx(caller)) == 0 {
+									j := -1
+									for i, pp := range caller.Params {
+										if pp == fp {
+											j = i
+										}
+									}
+									if j >= 0 {
+										if up := sitesOf(caller, j, depth+1); len(up) > 0 {
+											out = append(out, up...)
+											continue
+										}
+									}
+								}
+								out = append(out, csite{caller, cc, arg})
+							}
+						}
+						return out
+					}
+					for _, cs := range sitesOf(w.fn, idx, 0) {
+						caller, cc := cs.caller, cs.cc
+						{
 							n++
-							arg := cc.Call.Args[idx]
+							arg := cs.arg
 							bound := requestBoundCtx(caller)
 							okb := false
 							for _, b := range bound {
